@@ -1538,9 +1538,15 @@ class C04(Prop):
         # the max getters are promises for the whole life: go to the low end of the permitted range, read them, go to the high
         # end (stepped or ramped), read next; failures of the fixed-input types on such schedules are the findings D3/D4
         for i in range(max(8, self.n // 5)):
-            cfg = gen.gen_cfg(rng, kinds=gen.ASYNC, max_chunk=400, probe=True)
+            cfg = gen.gen_cfg(rng, kinds=gen.ASYNC, max_chunk=4096, probe=True)
             if cfg.maxrel <= 1:
                 continue
+            if rng.random() < 0.5 and not (cfg.ratio > 16 or cfg.ratio < 1 / 16):
+                # long calls: the +10 frame margin of the estimates is small against chunk * (ratio difference)
+                p = cfg.line.split()
+                ci = 5 if cfg.kind.startswith("fast") else 9
+                p[ci] = str(rng.choice([512, 1024, 2048, 4096]))
+                cfg.line = " ".join(p)
             lo = hx((1 / cfg.maxrel) * (1 + 1e-9))
             hi = hx(cfg.maxrel * (1 - 1e-9))
             ops = [cfg.new(0)] + ["0 proc - n m i"] * rng.randint(0, 2)
@@ -1557,6 +1563,7 @@ class C04(Prop):
         out = []
         infos = {}
         life = {}
+        mg = {}          # model getters per slot after its last op
         for k in h.meta.get("twin_pairs", []):
             ra, rb = h.real[k], h.real[k + 1]
             if "skip" in (ra, rb):
@@ -1582,6 +1589,9 @@ class C04(Prop):
                 break
             g = fr["g"]
             ms = (fm is not None and fm["g"] == g)
+            mg_before = dict(mg)
+            if fm is not None and fm.get("g") is not None:
+                mg[slot] = fm["g"]
             if name == "new" or name == "reset":
                 life[slot] = None
             if g is not None:
@@ -1606,8 +1616,10 @@ class C04(Prop):
                     out.append(viol("C04", h, k, info, "consumed-differs-from-next", {"in": nin, "next": gb[0]}))
                     break
                 if nout > gb[2]:
-                    out.append(viol("C04", h, k, info, "out-exceeds-next", {"out": nout, "next": gb[2]},
-                                    model_same=(fm is not None and fm["status"] == st)))
+                    # "the model predicts the same failure" = same counts AND the model advertised the same next before the call
+                    # (a change that only alters what the code ADVERTISES is not the known overshoot of D3/D4)
+                    same = fm is not None and fm["status"] == st and mg_before.get(slot) == gb
+                    out.append(viol("C04", h, k, info, "out-exceeds-next", {"out": nout, "next": gb[2]}, model_same=same))
                     break
                 if info.kind in ("fastout", "sincout", "fftin", "fftout", "fftio") and nout != gb[2]:
                     out.append(viol("C04", h, k, info, "out-differs-from-next", {"out": nout, "next": gb[2]}))
@@ -1977,7 +1989,7 @@ class C06(Prop):
                 cfg.line = " ".join(p)
             else:
                 cfg = gen.gen_cfg(rng, kinds=[kind], ty="f64", nch=1, max_chunk=300, probe=True, sinc_lens=[8, 16, 32, 64],
-                                  interp=rng.choice([0, 1, 2]))
+                                  interp=rng.choice([0, 1, 2, 3]))
                 cfg.line = cfg.line[:-len("probe")] + "lprobe"
             rc = rng.choice(["calm", "any", "any"])
             ops = [cfg.new(0)]
@@ -2000,7 +2012,7 @@ class C06(Prop):
         for i in range(max(6, self.n // 4)):
             kind = rng.choice(["sincin", "sincout", "sincout"])
             cfg = gen.gen_cfg(rng, kinds=[kind], ty="f64", nch=1, max_chunk=400, probe=True, sinc_lens=[8, 16, 32, 64],
-                              interp=rng.choice([0, 1, 2]))
+                              interp=rng.choice([0, 1, 2, 3]))
             cfg.line = cfg.line[:-len("probe")] + "lprobe"
             if cfg.maxrel <= 1 or cfg.chunk < 8:
                 continue
@@ -2082,19 +2094,25 @@ class C06(Prop):
                 if info.kind.startswith("sinc"):
                     f_ = int(info.p[4])
                     tie = any(abs(x * f_ - round(x * f_)) < 1e-6 for x in (a, b))
-                if not d > 0:
+                # sinc Nearest: the instants are quantised to the fine grid (step 1/f) by design: consecutive frames may share
+                # a grid point and the spacing is only defined up to one grid step -- but it never goes backwards
+                quant = 0.0
+                if info.kind.startswith("sinc") and info.p[2] == "3":
+                    quant = 1.0 / int(info.p[4])
+                    tie = False
+                if (quant == 0.0 and not d > 0) or (quant > 0.0 and d < -tolr):
                     v = viol("C06", h, k, info, "instants-not-increasing", {"a": a, "b": b})
                     v["class"] = "sinc:position-tie" if tie else "other"
                     out.append(v)
                     return out
-                if d < lo - tolr or d > hi + tolr:
+                if d < lo - quant - tolr or d > hi + quant + tolr:
                     v = viol("C06", h, k, info, "spacing-outside-reciprocals",
                              {"spacing": d, "lo": lo, "hi": hi, "ramp": ramp, "t_old": t0, "t_new": t1})
                     v["class"] = ("fixed-in:ramp" if (ramp and info.kind in ("fastin", "sincin")) else
                                   "sinc:position-tie" if tie else "other")
                     out.append(v)
                     return out
-            if ramp and len(vals) >= 3:
+            if ramp and len(vals) >= 3 and not (info.kind.startswith("sinc") and info.p[2] == "3"):
                 ds = [b - a for a, b in zip(vals, vals[1:]) if a >= 1.0]
                 sgn = 1 if t1 >= t0 else -1
                 for a, b in zip(ds, ds[1:]):
@@ -2492,8 +2510,12 @@ class ToneProp(Prop):
             fam = rng.random()
             ty = "f64" if rng.random() < 0.8 else "f32"
             big32 = len(hs) < 4      # the first four streams: f32, long calls (thousands of input frames per call), high tone
+            perwin = None if len(hs) < 4 or len(hs) >= 22 else (len(hs) - 4) % 6    # then three streams per window function
+            pwj = (len(hs) - 4) // 6
             if big32:
                 fam, ty = 0.0, "f32"
+            if perwin is not None:
+                fam, ty = 0.0, "f64"
             if fam < 0.7:
                 kind = rng.choice(["sincin", "sincout"])
                 ratio = math.exp(rng.uniform(math.log(1 / 8), math.log(8))) if rng.random() < 0.6 else rng.choice([0.5, 2.0, 48000 / 44100, 44100 / 48000, 1.0, 3.0, 1 / 3])
@@ -2505,6 +2527,11 @@ class ToneProp(Prop):
                     kind = ["sincin", "sincout", "sincout", "sincin"][len(hs)]
                     ratio = rng.choice([48000 / 44100, 44100 / 48000, 1.0, 0.8])
                     it, osf = rng.choice([0, 1, 2]), 256
+                if perwin is not None:
+                    # each of the six windows with a short filter, the best interpolation and a tone close to the band edge:
+                    # the window's own leakage / rejection figure is what limits the result
+                    win, sl, it, osf = perwin, (64 if not self.stop else 128), 0, 256
+                    ratio = rng.choice([1.37, 2.0 + 1 / 7, 1.2]) if not self.stop else rng.choice([0.5, 0.4])
                 cc = calc_cutoff(sl, win)
                 fcut = cc if rng.random() < 0.6 else rng.choice([0.9, 0.8, 0.95 * cc])
                 fcut = struct_f32(fcut)
@@ -2520,7 +2547,7 @@ class ToneProp(Prop):
                     edge = fcut - halfw
                     if edge <= 0.05:
                         continue
-                    u = rng.uniform(0.05, 0.98) if not big32 else rng.uniform(0.8, 0.98)
+                    u = rng.uniform(0.05, 0.98) if not (big32 or perwin is not None) else rng.uniform(0.8, 0.98)
                     f_low = u * edge                      # relative to the lower Nyquist
                     f_in = 0.5 * f_low * lowmin           # cycles per input sample
                 else:
@@ -2530,6 +2557,10 @@ class ToneProp(Prop):
                         if lo >= 0.995:
                             continue
                         f_in = 0.5 * rng.uniform(lo + 0.002, 0.998)
+                        if perwin is not None:
+                            # just above the stopband edge, where the first side lobes of the window decide the rejection
+                            # (three tones per window, 1.5 % of the input Nyquist apart: a single tone can sit in a null)
+                            f_in = 0.5 * min(0.998, lo + 0.003 + 0.015 * pwj + rng.uniform(0, 0.008))
                     else:
                         # upsampling: images of an in-band tone fall beyond the edge when f_cutoff <= calculate_cutoff
                         if fcut > cc + 1e-9:
